@@ -195,6 +195,9 @@ def mof_prod(p):
         return mof_inst(p['inst'])
     if p['k'] == 'qual':
         return mof_qualdecl(p['qual'])
+    if p['k'] == 'include':
+        # a file that does not exist: MOFCompiler.compile_file raises OSError (not a pywbem.Error)
+        return '#pragma include ("c11_no_such_file.mof")'
     return 'class C11_Broken { string ; };'
 
 
@@ -1357,6 +1360,8 @@ class Gen:
         assocs = [c for c in n['classes'] if self.is_assoc(c) and any(p['ty'] == 'reference' for p in c['props'])]
         if reason == 'syntax':
             return {'k': 'syntax'}
+        if reason == 'missing_include':
+            return {'k': 'include'}
         if reason == 'cls_nosuper':
             c = self.new_class(n, 'TC_Nope')
             c['quals'] = []
@@ -1421,7 +1426,8 @@ class Gen:
         n = self.pick_ns(st)
         m = rng.choice([1, 2, 2, 3, 3, 4, 5])
         prods = self.valid_prods(st, n, m)
-        reason = rng.choice(['ok', 'ok', 'syntax', 'cls_nosuper', 'cls_missing_ref', 'cls_undeclared_qual',
+        reason = rng.choice(['ok', 'ok', 'syntax', 'missing_include', 'missing_include', 'cls_nosuper', 'cls_missing_ref',
+                             'cls_undeclared_qual',
                              'cls_exists_has_instances', 'cls_ref_in_nonassoc', 'inst_noclass', 'inst_missing_key',
                              'inst_unknown_prop', 'inst_ref_missing', 'bad_ns'])
         op = {'op': 'compileMof', 'ns': recase(rng, n['name']), 'prods': prods, 'reason': reason, 'fail_pos': None,
@@ -1619,6 +1625,113 @@ def nsprovider_probes(run):
         os.chdir(cwd)
 
 
+# --------------------------------------------------------------------------- oracle-only probes (non-pywbem exceptions)
+
+PROBE_MOF_QUALS = 'Qualifier Key : boolean = false, Scope(property, reference);\n'
+
+
+def foreign_exception_probes(run):
+    """batches and single calls that fail with an exception that is NOT a pywbem.Error, at every position:
+    a missing include file (OSError) and a user-defined instance-write provider raising RuntimeError (the seam through
+    which arbitrary exceptions enter compile_mof_*, CreateInstance and DeleteClass).  The property says 'whenever the
+    call raises': the repository dump before and after must be identical whatever the exception class."""
+    import pywbem
+    import pywbem_mock
+
+    class RaisingProvider(pywbem_mock.InstanceWriteProvider):
+        provider_classnames = 'TP_Guarded'
+
+        def __init__(self, cimrepository):
+            super().__init__(cimrepository)
+
+        def CreateInstance(self, namespace, new_instance):
+            if str(new_instance['k']).startswith('bad'):
+                raise RuntimeError('user-defined provider failure')
+            return super().CreateInstance(namespace, new_instance)
+
+        def DeleteInstance(self, InstanceName):
+            if str(InstanceName['k']).startswith('keep'):
+                raise RuntimeError('user-defined provider refuses')
+            return super().DeleteInstance(InstanceName)
+
+    def mk(with_provider):
+        conn = pywbem_mock.FakedWBEMConnection(default_namespace='root/a')
+        conn.compile_mof_string(PROBE_MOF_QUALS + 'class TP_Guarded { [Key] string k; uint32 v; };\n'
+                                'class TP_Plain { [Key] string k; };\ninstance of TP_Plain { k = "p0"; };\n',
+                                namespace='root/a')
+        if with_provider:
+            conn.register_provider(RaisingProvider(conn.cimrepository), namespaces=['root/a'])
+        return conn
+
+    def attempt(conn, name, f, **sigx):
+        before = full_dump(conn)
+        try:
+            f()
+            run.count('probe:%s:ok' % name)
+        except Exception as e:  # noqa
+            exc = common.exc_json(e)
+            run.count('probe:%s:%s%s' % (name, exc['exc'], exc.get('code', '')))
+            after = full_dump(conn)
+            if after != before:
+                sig = {'kind': 'repository_changed_by_failed_call', 'entry': name, 'exc': exc.get('exc'),
+                       'code': exc.get('code'), 'probe': 'foreign_exception'}
+                sig.update(sigx)
+                run.violate(sig, {'probe': name, 'args': sigx}, dump_diff(before, after))
+        run.case({'probe': name, 'args': sigx}, nontrivial=True)
+
+    valid = ['Qualifier C11Q%d : boolean = false, Scope(any);',
+             'class TP_New%d { [Key] string k; };',
+             'instance of TP_Plain { k = "n%d"; };',
+             'instance of TP_Guarded { k = "ok%d"; v = 1; };']
+    fails = {'missing_include': '#pragma include ("c11_no_such_file.mof")',
+             'provider_runtime_error': 'instance of TP_Guarded { k = "bad"; v = 2; };'}
+    for reason, bad in fails.items():
+        for m in (1, 2, 4):                      # number of valid productions
+            for k in range(m + 1):               # the failing production at every position
+                for via in ('string', 'file'):
+                    conn = mk(True)
+                    prods = [valid[j % len(valid)] % j for j in range(m)]
+                    text = '\n'.join(prods[:k] + [bad] + prods[k:])
+
+                    def call(conn=conn, text=text, via=via):
+                        if via == 'string':
+                            conn.compile_mof_string(text, namespace='root/a')
+                        else:
+                            fd, path = tempfile.mkstemp(suffix='.mof', prefix='c11_')
+                            try:
+                                with os.fdopen(fd, 'w') as f:
+                                    f.write(text)
+                                conn.compile_mof_file(path, namespace='root/a')
+                            finally:
+                                os.unlink(path)
+                    attempt(conn, 'compile_mof_' + via, call, reason=reason, n_valid=m, fail_pos=k + 1,
+                            fail_pos_ge2=(k + 1 >= 2))
+    # single calls through the provider seam
+    conn = mk(True)
+    attempt(conn, 'CreateInstance', lambda: conn.CreateInstance(
+        pywbem.CIMInstance('TP_Guarded', {'k': 'bad1'}), namespace='root/a'), reason='provider_runtime_error')
+    for key in ('a1', 'keep2', 'a3', 'keep4'):
+        conn.CreateInstance(pywbem.CIMInstance('TP_Guarded', {'k': key}), namespace='root/a')
+    attempt(conn, 'DeleteInstance', lambda: conn.DeleteInstance(
+        pywbem.CIMInstanceName('TP_Guarded', {'k': 'keep2'}, namespace='root/a')), reason='provider_runtime_error')
+    # DeleteClass: the provider refuses the 2nd of 4 instances with a RuntimeError after the 1st was deleted
+    attempt(conn, 'DeleteClass', lambda: conn.DeleteClass('TP_Guarded', namespace='root/a'),
+            reason='provider_runtime_error')
+    # add_cimobjects with an object of a foreign type at every position (AssertionError)
+    for m in (1, 3):
+        for k in range(m + 1):
+            conn = mk(False)
+            objs = [pywbem.CIMClass('TP_Obj%d' % j) for j in range(m)]
+            objs = objs[:k] + ['not a CIM object'] + objs[k:]
+            attempt(conn, 'add_cimobjects', lambda conn=conn, objs=objs: conn.add_cimobjects(objs, namespace='root/a'),
+                    reason='foreign_type', n_valid=m, fail_pos=k + 1, fail_pos_ge2=(k + 1 >= 2))
+
+
+def all_probes(run):
+    nsprovider_probes(run)
+    foreign_exception_probes(run)
+
+
 # --------------------------------------------------------------------------- run / search / replay
 
 def _register_module():
@@ -1681,7 +1794,7 @@ def run(run):
                              '%s after op %d (%s)' % (what, idx, tag))
         for v in r['viols']:
             run.violate(v['sig'], {'nss': r['nss'], 'ops': r['ops'][:v['index'] + 1]}, v['diff'])
-    nsprovider_probes(run)
+    all_probes(run)
 
 
 def search(run):
@@ -1697,7 +1810,7 @@ def search(run):
         for v in r['viols']:
             run.violate(v['sig'], {'nss': r['nss'], 'ops': r['ops'][:v['index'] + 1]}, v['diff'])
     if len(run.violations) == before:
-        nsprovider_probes(run)
+        all_probes(run)
     return run.violations[before:]
 
 
@@ -1713,14 +1826,14 @@ def oracle_only(run):
             run.case({'nss': r['nss'], 'op': op}, nontrivial=False)
         for v in r['viols']:
             run.violate(v['sig'], {'nss': r['nss'], 'ops': r['ops'][:v['index'] + 1]}, v['diff'])
-    nsprovider_probes(run)
+    all_probes(run)
 
 
 def replay(payload):
     case = payload['case']
     if 'probe' in case:
         r = common.Run(PROP, 'quick', 0)
-        nsprovider_probes(r)
+        all_probes(r)
         bad = [v for v in r.violations if v['case'] == case]
         if bad:
             return False, 'property C11 FAILS: %s changed the repository although it raised: %s' % (
